@@ -39,6 +39,7 @@ OBLIGATIONS = [
     "Grog.C08.same_namespace_iff",
     "Grog.C08.tee_no_deadlock",
     "Grog.C08.tee_terminates",
+    "Grog.C08.get_does_not_confirm",
 ]
 ASSUMPTIONS = [
     "the remote store never loses an object and a successful put is atomic (S3 PutObject / finalised GCS writer)",
